@@ -3,7 +3,7 @@
    every statement holds whatever bloqade.geometry computes for shape / get_view / shift / scale /
    repeat / positions.  Statements only. *)
 From Coq Require Import QArith List Bool Arith.
-From BS Require Import Core.Base Model.Filled Proofs.FilledProofs.
+From BS Require Import Core.Base Model.Filled Proofs.FilledProofs Proofs.FilledAlgebra.
 Import ListNotations.
 Local Open Scope nat_scope.
 
@@ -79,6 +79,42 @@ Section C12.
     root G (vacate G (vacate G v a) b) = root G (vacate G v (a ++ b)) /\
     forall p, In p (vacancies G (vacate G (vacate G v a) b)) <-> In p (vacancies G (vacate G v (a ++ b))).
   Proof. intros v a b. split; [exact (vacate_vacate_root G v a b) | exact (vacate_vacate G v a b)]. Qed.
+  (* algebra of the occupancy operations (Proofs/FilledAlgebra.v): the order of vacate (fill) calls is
+     irrelevant, repeating one changes nothing, fill and vacate of the same sites cancel as sets,
+     and shift / scale commute with vacate and fill as values *)
+  Theorem C12_vacate_order_irrelevant : forall v a b p,
+    In p (vacancies G (vacate G (vacate G v a) b)) <-> In p (vacancies G (vacate G (vacate G v b) a)).
+  Proof. exact (vacate_comm G). Qed.
+  Theorem C12_vacate_idempotent : forall v a p,
+    In p (vacancies G (vacate G (vacate G v a) a)) <-> In p (vacancies G (vacate G v a)).
+  Proof. exact (vacate_idem G). Qed.
+  Theorem C12_fill_order_irrelevant : forall v a b p,
+    In p (vacancies G (fill G g_shape (fill G g_shape v a) b)) <->
+    In p (vacancies G (fill G g_shape (fill G g_shape v b) a)).
+  Proof. exact (fill_comm G g_shape). Qed.
+  Theorem C12_fill_idempotent : forall v a p,
+    In p (vacancies G (fill G g_shape (fill G g_shape v a) a)) <-> In p (vacancies G (fill G g_shape v a)).
+  Proof. exact (fill_idem G g_shape). Qed.
+  Theorem C12_fill_after_vacate : forall v l p,
+    In p (vacancies G (fill G g_shape (vacate G v l) l)) <-> In p (vacancies G v) /\ ~ In p l.
+  Proof. exact (fill_after_vacate G g_shape). Qed.
+  Theorem C12_vacate_after_fill : forall r vac l p,
+    In p (vacancies G (vacate G (fill G g_shape (FFilled G r vac) l) l)) <-> In p vac \/ In p l.
+  Proof. exact (vacate_after_fill G g_shape). Qed.
+  Theorem C12_shift_vacate_commute : forall v l dx dy,
+    fshift G g_shift (vacate G v l) dx dy = vacate G (fshift G g_shift v dx dy) l.
+  Proof. exact (shift_vacate G g_shift). Qed.
+  Theorem C12_scale_vacate_commute : forall v l sx sy,
+    fscale G g_scale (vacate G v l) sx sy = vacate G (fscale G g_scale v sx sy) l.
+  Proof. exact (scale_vacate G g_scale). Qed.
+  Theorem C12_shift_fill_commute : forall r vac l dx dy,
+    fshift G g_shift (fill G g_shape (FFilled G r vac) l) dx dy =
+    fill G g_shape (fshift G g_shift (FFilled G r vac) dx dy) l.
+  Proof. exact (shift_fill_filled G g_shape g_shift). Qed.
+  Theorem C12_shift_fill_plain_commute : forall g l dx dy, g_shape (g_shift g dx dy) = g_shape g ->
+    fshift G g_shift (fill G g_shape (FPlain G g) l) dx dy =
+    fill G g_shape (fshift G g_shift (FPlain G g) dx dy) l.
+  Proof. exact (shift_fill_plain G g_shape g_shift). Qed.
 End C12.
 
 Example C12_example :
@@ -102,3 +138,13 @@ Print Assumptions C12_repeat_tiles.
 Print Assumptions C12_repeat_tiles_mod.
 Print Assumptions C12_eq_iff.
 Print Assumptions C12_vacate_in_steps_equals_vacate_at_once.
+Print Assumptions C12_vacate_order_irrelevant.
+Print Assumptions C12_vacate_idempotent.
+Print Assumptions C12_fill_order_irrelevant.
+Print Assumptions C12_fill_idempotent.
+Print Assumptions C12_fill_after_vacate.
+Print Assumptions C12_vacate_after_fill.
+Print Assumptions C12_shift_vacate_commute.
+Print Assumptions C12_scale_vacate_commute.
+Print Assumptions C12_shift_fill_commute.
+Print Assumptions C12_shift_fill_plain_commute.
